@@ -135,6 +135,148 @@ func (s *c12State) provider(g *ssa.Function) (int, bool) {
 	return errIdx, true
 }
 
+// c12Reviewer is one way a value answers token reviews for a host: the body that runs and,
+// when that body is a method, the receiver object it runs on.
+type c12Reviewer struct {
+	fn  *ssa.Function // a function literal, or a method
+	obj ssa.Value     // nil for a literal; the receiver (bound by a method value, or the object itself)
+	mc  *ssa.MakeClosure
+}
+
+// reviewers returns the review bodies behind v when v creates a review function: something
+// of a webhook package that answers a request like the entry point does (same results) and
+// obtains its own client from ClientFor — a function literal, a method value `obj.review`
+// (the literal turned into a method of a named type), or a freshly built object of a named
+// type with such a method (the literal turned into an implementation of the delegate
+// interface) — whatever the function that builds it is called, and whether that is a method
+// of the webhook or a function taking the fields it needs.
+func (s *c12State) reviewers(v ssa.Value) []c12Reviewer {
+	answers := func(fn *ssa.Function) bool {
+		if fn == nil || fn.Blocks == nil || s.anchors[fn] || len(eng.CallsTo(fn, c12ClientFor)) == 0 {
+			return false
+		}
+		for a := range s.anchors {
+			if a.Pkg == c12Outer(fn).Pkg && types.Identical(fn.Signature.Results(), a.Signature.Results()) {
+				return true
+			}
+		}
+		return false
+	}
+	switch n := v.(type) {
+	case *ssa.MakeClosure:
+		fn, _ := n.Fn.(*ssa.Function)
+		if fn != nil && fn.Synthetic != "" {
+			if m := s.c.W.FuncOfValue(n); answers(m) && len(n.Bindings) == 1 {
+				return []c12Reviewer{{fn: m, obj: n.Bindings[0], mc: n}}
+			}
+			return nil
+		}
+		if answers(fn) {
+			return []c12Reviewer{{fn: fn, mc: n}}
+		}
+	case *ssa.Alloc:
+		pt, _ := n.Type().Underlying().(*types.Pointer)
+		if pt == nil {
+			return nil
+		}
+		named, _ := pt.Elem().(*types.Named)
+		if named == nil || named.Obj().Pkg() == nil {
+			return nil
+		}
+		if _, isStruct := named.Underlying().(*types.Struct); !isStruct {
+			return nil
+		}
+		var out []c12Reviewer
+		for _, fn := range s.c.W.FuncsOf(named.Obj().Pkg().Path()) {
+			recv := fn.Signature.Recv()
+			if recv == nil || fn.Parent() != nil {
+				continue
+			}
+			rt := recv.Type()
+			if p, isP := rt.(*types.Pointer); isP {
+				rt = p.Elem()
+			}
+			if types.Identical(rt, named) && answers(fn) {
+				out = append(out, c12Reviewer{fn: fn, obj: n})
+			}
+		}
+		return out
+	}
+	return nil
+}
+
+func (s *c12State) isReviewFunc(v ssa.Value) bool { return len(s.reviewers(v)) > 0 }
+
+// reviewHosts returns, for a review function created at l (found in calling context l.Fr), the
+// host values its ClientFor calls are bound to, resolved into the context the search started
+// in: through the captured variable (function literal) or the field of the freshly built
+// receiver object (method value, object), and the parameters of the function that builds it.
+// why != "" when a ClientFor argument is bound in some other way.
+func (s *c12State) reviewHosts(l eng.CtxVal) (hosts []ssa.Value, why string) {
+	for _, rv := range s.reviewers(l.V) {
+		fn := rv.fn
+		for _, ci := range eng.CallsTo(fn, c12ClientFor) {
+			arg := eng.Args(ci)[0]
+			if rv.obj != nil {
+				// a method: the host is a field of the receiver object built for this host
+				ld, isLd := arg.(*ssa.UnOp)
+				var fa *ssa.FieldAddr
+				if isLd && ld.Op == token.MUL {
+					fa, _ = ld.X.(*ssa.FieldAddr)
+				}
+				if fa == nil || len(fn.Params) == 0 || fa.X != ssa.Value(fn.Params[0]) {
+					continue // computed inside the review method itself: decided there by R1(b)
+				}
+				obj := s.c.W.ResolveCtx(rv.obj, l.Fr, false)
+				al, isAl := obj.V.(*ssa.Alloc)
+				if !isAl {
+					return nil, "the review method's receiver is " + c12Describe(obj.V) + ", not an object built for this host"
+				}
+				sv := eng.SingleFieldStoreOf(al, fa.Field)
+				if sv == nil {
+					return nil, "the host field of the review method's receiver is not set exactly once while the object is built"
+				}
+				hosts = append(hosts, s.c.W.ResolveCtx(sv, obj.Fr, false).V)
+				continue
+			}
+			var fv *ssa.FreeVar
+			if ld, ok := arg.(*ssa.UnOp); ok && ld.Op == token.MUL {
+				fv, _ = ld.X.(*ssa.FreeVar)
+			} else {
+				fv, _ = arg.(*ssa.FreeVar)
+			}
+			idx := -1
+			for k, x := range fn.FreeVars {
+				if fv != nil && x == fv {
+					idx = k
+				}
+			}
+			if idx < 0 || idx >= len(rv.mc.Bindings) {
+				// computed inside the review function itself: decided there by R1(b)
+				continue
+			}
+			var val ssa.Value = rv.mc.Bindings[idx]
+			if _, isAddr := arg.(*ssa.UnOp); isAddr {
+				// the captured cell: what was stored into it before the function was made
+				al, isAl := val.(*ssa.Alloc)
+				if !isAl {
+					return nil, "the review function's host is captured from " + c12Describe(val)
+				}
+				sv := eng.SingleStoreOf(al)
+				if sv == nil {
+					return nil, "the review function's host variable is assigned more than once"
+				}
+				val = sv
+			}
+			hosts = append(hosts, s.c.W.ResolveCtx(val, l.Fr, false).V)
+		}
+	}
+	if len(hosts) == 0 && why == "" {
+		why = "the review function is not bound to a host (its ClientFor argument is neither a captured variable nor a field of its receiver)"
+	}
+	return hosts, why
+}
+
 // c12AnswerReturns returns the return statements that produce the values r yields: r itself,
 // or — when r hands on all results of one call of a repository function (`return g(…)`) —
 // the returns of that function (depth levels).
@@ -192,7 +334,22 @@ func c12IsCachesOp(ci ssa.CallInstruction, typ string) (string, bool) {
 	if !ok {
 		return "", false
 	}
-	return op, eng.FieldAddrOf(eng.Receiver(ci), typ, "caches")
+	return op, len(c12CachesBases(eng.Receiver(ci), typ)) > 0
+}
+
+// c12CachesBases returns the webhook objects whose `caches` table the *sync.Map value recv
+// denotes: recv is &x.caches, or a parameter of an extracted helper (method → function taking
+// the fields it needs) that every call site binds to such an address. nil when it is (also)
+// something else.
+func c12CachesBases(recv ssa.Value, typ string) []ssa.Value {
+	var out []ssa.Value
+	for _, u := range eng.Current.UpVals(recv) {
+		if !eng.FieldAddrOf(u, typ, "caches") {
+			return nil
+		}
+		out = append(out, u.(*ssa.FieldAddr).X)
+	}
+	return out
 }
 
 // c12IsCachesLookup: value is (an extract #0 of) caches.Load / caches.LoadOrStore of typ.
@@ -829,30 +986,31 @@ func c12R1(st *c12State, h *c12Hook) {
 				}
 			}
 			if h.name == "token" && okV {
-				// the cached authenticator wraps authenticateTokenForHost(the key's host)
-				isForHost := func(v ssa.Value) bool {
-					cc, _ := eng.CallResultOf(v)
-					return cc != nil && eng.IsCall(cc, "(*"+c12TokenType+").authenticateTokenForHost")
-				}
+				// the cached authenticator wraps the review function bound to the key's host
 				n := 0
-				for _, l := range c.Slicer().WithArgs().Leaves(val, isForHost) {
-					if !isForHost(l) {
-						if _, isG := l.(*ssa.Global); isG {
-							okV, why = false, "cached authenticator derives from "+c12Describe(l)
+				for _, l := range c.W.CtxLeavesArgs(val, nil, st.isReviewFunc, eng.LiftDepth, false) {
+					if !st.isReviewFunc(l.V) {
+						if _, isG := l.V.(*ssa.Global); isG {
+							okV, why = false, "cached authenticator derives from "+c12Describe(l.V)
 						}
 						continue
 					}
 					n++
-					cc, _ := eng.CallResultOf(l)
-					f := st.hostOrigin(eng.Args(cc)[0], 4)
-					if !f.ok {
-						okV, why = false, "authenticateTokenForHost argument "+f.why
-					} else if kf := keyFacts[ci]; !kf.ok || !f.sameBases(kf) {
-						okV, why = false, "authenticateTokenForHost is built for a different host value than the cache key"
+					hosts, w := st.reviewHosts(l)
+					if w != "" {
+						okV, why = false, w
+					}
+					for _, hv := range hosts {
+						f := st.hostOrigin(hv, 4)
+						if !f.ok {
+							okV, why = false, "the review function's host "+f.why
+						} else if kf := keyFacts[ci]; !kf.ok || !f.sameBases(kf) {
+							okV, why = false, "the review function is built for a different host value than the cache key"
+						}
 					}
 				}
 				if n == 0 && okV {
-					okV, why = false, "cached authenticator does not wrap authenticateTokenForHost(host)"
+					okV, why = false, "cached authenticator does not wrap a review function bound to the host (a function that asks ClientFor(host) for its client)"
 				}
 			}
 			c.Check("R1", fn, ord.next(fn, "caches."+op+" value built for the key's host"), ci.Pos(), okV,
@@ -867,31 +1025,31 @@ func c12R1(st *c12State, h *c12Hook) {
 		for _, ci := range eng.CallsTo(h.anchor, c12TokenInvoke) {
 			n++
 			ok, why := true, ""
-			stop := func(v ssa.Value) bool {
-				if c12IsCachesLookup(v, h.typ) {
-					return true
-				}
-				cc, _ := eng.CallResultOf(v)
-				return cc != nil && eng.IsCall(cc, "(*"+c12TokenType+").authenticateTokenForHost")
-			}
-			leaves := c.Slicer().Leaves(eng.Receiver(ci), stop)
+			stop := func(v ssa.Value) bool { return c12IsCachesLookup(v, h.typ) || st.isReviewFunc(v) }
+			leaves := c.W.CtxLeaves(eng.Receiver(ci), nil, stop, eng.LiftDepth, true)
 			if len(leaves) == 0 {
 				ok, why = false, "authenticator of unknown origin"
 			}
 			for _, l := range leaves {
-				if !stop(l) {
-					ok, why = false, "authenticator comes from "+c12Describe(l)
+				if !stop(l.V) {
+					ok, why = false, "authenticator comes from "+c12Describe(l.V)
 					continue
 				}
-				cc, _ := eng.CallResultOf(l)
-				if _, isCache := c12IsCachesOp(cc, h.typ); isCache {
+				if c12IsCachesLookup(l.V, h.typ) {
+					cc, _ := eng.CallResultOf(l.V)
 					if f, seen := keyFacts[cc]; !seen || !f.ok {
 						ok, why = false, "cache entry looked up under a key that is not the request's host"
 					}
 					continue
 				}
-				if f := st.hostOrigin(eng.Args(cc)[0], 4); !f.ok {
-					ok, why = false, "authenticateTokenForHost argument "+f.why
+				hosts, w := st.reviewHosts(l)
+				if w != "" {
+					ok, why = false, w
+				}
+				for _, hv := range hosts {
+					if f := st.hostOrigin(hv, 4); !f.ok {
+						ok, why = false, "the review function's host "+f.why
+					}
 				}
 			}
 			c.Check("R1", h.anchor, ord.next(h.anchor, "answering authenticator = this host's"), ci.Pos(), ok,
@@ -1179,17 +1337,27 @@ func c12R3Hook(st *c12State, h *c12Hook) {
 			}
 			recv := eng.Receiver(ci)
 			ok, why := true, ""
-			if !eng.FieldAddrOf(recv, h.typ, "caches") {
+			bases := c12CachesBases(recv, h.typ)
+			if len(bases) == 0 {
 				ok, why = false, "sync.Map that is not the webhook's own caches field"
-			} else {
-				outer := c12Outer(fn)
-				base := recv.(*ssa.FieldAddr).X
+			}
+			for _, base := range bases {
+				// the object is the receiver of the method the table is reached from (for a helper that
+				// is handed &a.caches: the receiver of the method that makes the call)
+				var outer *ssa.Function
+				if ins, isIns := base.(ssa.Instruction); isIns {
+					outer = c12Outer(ins.Parent())
+				} else if p, isP := base.(*ssa.Parameter); isP {
+					outer = c12Outer(p.Parent())
+				} else if fv, isFV := base.(*ssa.FreeVar); isFV {
+					outer = c12Outer(fv.Parent())
+				}
 				leaves := c.Slicer().Leaves(base, nil)
-				if len(leaves) == 0 {
+				if len(leaves) == 0 || outer == nil {
 					ok, why = false, "receiver of unknown origin"
 				}
 				for _, l := range leaves {
-					if outer.Signature.Recv() == nil || len(outer.Params) == 0 || l != ssa.Value(outer.Params[0]) {
+					if outer == nil || outer.Signature.Recv() == nil || len(outer.Params) == 0 || l != ssa.Value(outer.Params[0]) {
 						ok, why = false, "table reached through "+c12Describe(l)+" instead of the method receiver"
 					}
 				}
@@ -1298,38 +1466,108 @@ func c12R4(c *eng.Ctx) {
 			continue // promoted from an embedded Manager: dispatches to a declared one
 		}
 		nImpl++
-		gets := eng.CallsTo(cf, "(*"+tManager+").Get")
-		picks := eng.CallsTo(cf, "(*"+tClusterInfo+").PickOne")
+		// Get and PickOne may sit in a helper of ClientFor (`cluster, endpoint, err :=
+		// m.readyEndpoint(name)`): they are looked up in the Region, values are related through the
+		// helper's results and parameters, guards through the helper's ok / error results.
+		var gets, picks []ssa.CallInstruction
+		for _, fn := range c.W.Region(cf) {
+			gets = append(gets, eng.CallsTo(fn, "(*"+tManager+").Get")...)
+			picks = append(picks, eng.CallsTo(fn, "(*"+tClusterInfo+").PickOne")...)
+		}
 		if len(gets) != 1 || len(picks) != 1 {
 			c.Fail("R4", cf, "ClientFor = Get(name).PickOne().Clientset()", cf.Pos(), fmt.Sprintf("expected one Get and one PickOne, found %d and %d", len(gets), len(picks)))
 			continue
 		}
-		get, pick := gets[0].(*ssa.Call), picks[0].(*ssa.Call)
+		get, isGetCall := gets[0].(*ssa.Call)
+		pick, isPickCall := picks[0].(*ssa.Call)
+		if !isGetCall || !isPickCall {
+			c.Fail("R4", cf, "ClientFor = Get(name).PickOne().Clientset()", cf.Pos(), "Get / PickOne run as go or defer")
+			continue
+		}
 		isGet0 := func(v ssa.Value) bool { cc, i := eng.CallResultOf(v); return cc == get && i == 0 }
 		isGet1 := func(v ssa.Value) bool { cc, i := eng.CallResultOf(v); return cc == get && i == 1 }
 		isPick0 := func(v ssa.Value) bool { cc, i := eng.CallResultOf(v); return cc == pick && i == 0 }
 		isPick1 := func(v ssa.Value) bool { cc, i := eng.CallResultOf(v); return cc == pick && i == 1 }
-		isName := func(v ssa.Value) bool { return len(cf.Params) > 1 && v == ssa.Value(cf.Params[1]) }
-		okGet := eng.Receiver(get) == ssa.Value(cf.Params[0]) && only(eng.Args(get)[0], isName)
+		// onlyDeep: every origin of v (in context fr) satisfies pred — or is nil, the failure result of a helper
+		onlyDeep := func(v ssa.Value, fr *eng.DFrame, pred func(ssa.Value) bool) bool {
+			n := 0
+			for _, l := range c.W.CtxLeaves(v, fr, pred, eng.LiftDepth, true) {
+				switch {
+				case pred(l.V):
+					n++
+				case eng.IsNilConst(l.V):
+				default:
+					return false
+				}
+			}
+			return n > 0
+		}
+		// holdsDeep: a relation satisfying pred holds whenever ins executes, in every calling
+		// context, with ok flags and error results of helpers expanded
+		holdsDeep := func(ins ssa.Instruction, pred func(eng.Rel) bool) bool {
+			for _, fc := range eng.FactsAtUp(ins, eng.LiftDepth) {
+				ok := false
+				for _, f := range eng.ExpandResultFacts(fc.Facts, eng.LiftDepth) {
+					if pred(eng.Rel{Op: f.Rel.Op, X: f.X(), Y: f.Y()}) {
+						ok = true
+						break
+					}
+				}
+				if !ok {
+					return false
+				}
+			}
+			return true
+		}
+		isNameParam := func(v ssa.Value) bool { return len(cf.Params) > 1 && v == ssa.Value(cf.Params[1]) }
+		okGet := c12ResolvesTo(c.W, eng.Receiver(get), cf.Params[0]) && onlyDeep(eng.Args(get)[0], nil, isNameParam)
 		c.Check("R4", cf, "cluster = own Get(name)", get.Pos(), okGet, "the cluster must be looked up in the manager's own table under the requested name")
-		okPick := only(eng.Receiver(pick), isGet0) && eng.GuardedByBool(pick, isGet1, true)
+		okPick := onlyDeep(eng.Receiver(pick), nil, isGet0) && (eng.GuardedByBool(pick, isGet1, true) || holdsDeep(pick, func(r eng.Rel) bool {
+			return (r.Op == token.EQL && isGet1(r.X) && eng.IsBoolConst(r.Y, true)) || (r.Op == token.NEQ && isGet1(r.X) && eng.IsBoolConst(r.Y, false))
+		}))
 		c.Check("R4", cf, "endpoint = PickOne() of that cluster", pick.Pos(), okPick, "the endpoint must be picked from the cluster returned by Get(name), on its found edge; picking from another cluster sends the review across tenants")
-		nPos := 0
+		isClientsetCall := func(v ssa.Value) bool {
+			cc, _ := eng.CallResultOf(v)
+			return cc != nil && eng.IsCall(cc, "(*"+tEndpointInfo+").Clientset")
+		}
+		nPos, nFail := 0, 0
 		eng.Instrs(cf, func(ins ssa.Instruction) {
 			r, isRet := ins.(*ssa.Return)
-			if !isRet || len(r.Results) != 3 {
+			if !isRet || len(r.Results) != 3 || r.Block() == cf.Recover {
 				return
 			}
-			okCluster := eng.IsNilConst(r.Results[0]) || only(r.Results[0], isGet0)
-			if eng.IsNilConst(r.Results[1]) {
-				c.Check("R4", cf, fmt.Sprintf("failure return#%d names no other cluster", c12NRet(r)), r.Pos(), okCluster, "the cluster result must be nil or the cluster of Get(name)")
+			res := eng.ReturnResults(r)
+			okCluster := eng.IsNilConst(res[0]) || onlyDeep(res[0], nil, isGet0)
+			if eng.IsNilConst(res[1]) {
+				// one obligation per failure outcome (a return that hands on the results of a helper
+				// stands for each of the helper's outcomes), numbered in program order
+				ls := c.W.CtxLeaves(res[0], nil, isGet0, eng.LiftDepth, true)
+				if len(ls) == 0 {
+					ls = []eng.CtxVal{{V: res[0]}}
+				}
+				for _, l := range ls {
+					nFail++
+					c.Check("R4", cf, fmt.Sprintf("failure return#%d names no other cluster", nFail), r.Pos(), eng.IsNilConst(l.V) || isGet0(l.V), "the cluster result must be nil or the cluster of Get(name)")
+				}
 				return
 			}
 			nPos++
-			cc, _ := eng.CallResultOf(r.Results[1])
-			okClient := cc != nil && eng.IsCall(cc, "(*"+tEndpointInfo+").Clientset") && only(eng.Receiver(cc), isPick0)
-			okErr := eng.GuardedByNil(r, isPick1, true)
-			c.Check("R4", cf, "returned clientset = picked endpoint's Clientset()", r.Pos(), okClient && okCluster && okErr,
+			okClient, n := true, 0
+			for _, l := range c.W.CtxLeaves(res[1], nil, isClientsetCall, eng.LiftDepth, true) {
+				if eng.IsNilConst(l.V) {
+					continue
+				}
+				cc, _ := eng.CallResultOf(l.V)
+				if !isClientsetCall(l.V) || !onlyDeep(eng.Receiver(cc), l.Fr, isPick0) {
+					okClient = false
+					continue
+				}
+				n++
+			}
+			okErr := eng.GuardedByNil(r, isPick1, true) || holdsDeep(r, func(rel eng.Rel) bool {
+				return rel.Op == token.EQL && ((isPick1(rel.X) && eng.IsNilConst(rel.Y)) || (isPick1(rel.Y) && eng.IsNilConst(rel.X)))
+			})
+			c.Check("R4", cf, "returned clientset = picked endpoint's Clientset()", r.Pos(), okClient && n > 0 && okCluster && okErr,
 				"the clientset returned for a name must be the clientset of the endpoint picked from that cluster (on PickOne's err == nil edge), together with that cluster")
 		})
 		if nPos == 0 {
@@ -1356,7 +1594,7 @@ func c12R4(c *eng.Ctx) {
 			ok := only(r.Results[0], isLoad)
 			for _, l := range sl.Leaves(r.Results[0], isLoad) {
 				if cc, _ := eng.CallResultOf(l); cc != nil && isLoad(l) {
-					if !sl.WithArgs().DerivesFrom(eng.Args(cc)[0], func(v ssa.Value) bool { return v == ssa.Value(get.Params[1]) }) {
+					if !sl.WithArgs().WithUp().DerivesFrom(eng.Args(cc)[0], func(v ssa.Value) bool { return v == ssa.Value(get.Params[1]) }) {
 						ok = false
 					}
 				}
@@ -1368,23 +1606,64 @@ func c12R4(c *eng.Ctx) {
 		}
 	}
 
-	// PickOne picks among the receiver's own endpoints
+	// PickOne picks among the receiver's own endpoints: every endpoint it can return was loaded
+	// from an Endpoints table (origin), and that table is the one of the cluster PickOne was
+	// called on (identity) — whether the pick goes through a strategy object bound to the
+	// cluster, a function handed the cluster, or helpers that split the work.
 	if po := c.MustMethod(pkgClusters, "ClusterInfo", "PickOne"); po != nil {
-		var strat ssa.Value
-		okStore := false
-		for _, s := range eng.StoresToField([]*ssa.Function{po}, tPickStrategy, "cluster") {
-			okStore = s.Val == ssa.Value(po.Params[0])
-			strat = s.Addr.(*ssa.FieldAddr).X
+		isLoad := func(v ssa.Value) bool {
+			cc, i := eng.CallResultOf(v)
+			return cc != nil && i == 0 && eng.IsCall(cc, "(*"+tEndpointInfoMap+").Load")
 		}
-		c.Check("R4", po, "picker.cluster = receiver", po.Pos(), okStore, "PickOne must pick among the endpoints of the cluster it is called on")
-		okRet := false
+		okCluster, okOrigin, nLoads := true, true, 0
+		whyCluster, whyOrigin := "", ""
 		eng.Instrs(po, func(ins ssa.Instruction) {
-			if r, isRet := ins.(*ssa.Return); isRet && len(r.Results) == 2 {
-				cc, i := eng.CallResultOf(r.Results[0])
-				okRet = cc != nil && i == 0 && eng.IsCall(cc, "(*"+tPickStrategy+").Pop") && strat != nil && eng.Receiver(cc) == strat
+			r, isRet := ins.(*ssa.Return)
+			if !isRet || len(r.Results) != 2 || r.Block() == po.Recover {
+				return
+			}
+			v := eng.ReturnResults(r)[0]
+			for _, l := range c.W.CtxLeaves(v, nil, isLoad, eng.LiftDepth+2, false) {
+				switch x := l.V.(type) {
+				case *ssa.Const:
+					if !x.IsNil() && x.Value != nil {
+						okOrigin, whyOrigin = false, "returns "+c12Describe(x)
+					}
+					continue
+				case *ssa.MakeSlice:
+					continue // the empty list the ready endpoints are collected in
+				}
+				if !isLoad(l.V) {
+					okOrigin, whyOrigin = false, "an endpoint returned comes from "+c12Describe(l.V)+", not from an Endpoints table"
+					continue
+				}
+				nLoads++
+				cc, _ := eng.CallResultOf(l.V)
+				table := c.W.ResolveCtx(eng.Receiver(cc), l.Fr, false)
+				var owner ssa.Value
+				switch {
+				case eng.FieldLoadOf(table.V, tClusterInfo, "Endpoints"):
+					owner = c12FieldBase(table.V)
+				case eng.FieldAddrOf(table.V, tClusterInfo, "Endpoints"):
+					owner = table.V.(*ssa.FieldAddr).X
+				}
+				if owner == nil {
+					okCluster, whyCluster = false, "the table read is "+eng.PathString(table.V)+", not the Endpoints field of a cluster"
+					continue
+				}
+				if cl := c.W.ResolveCtx(owner, table.Fr, false); cl.V != ssa.Value(po.Params[0]) || cl.Fr != nil {
+					okCluster, whyCluster = false, "the cluster whose endpoints are read is "+c12Describe(cl.V)+", not the receiver"
+				}
 			}
 		})
-		c.Check("R4", po, "result = that picker's Pop()", po.Pos(), okRet, "the endpoint returned is the one popped from the picker bound to this cluster (C03.R1 shows Pop reads cluster.Endpoints)")
+		// a strategy object built here must be bound to the receiver
+		for _, s := range eng.StoresToField(c.W.Region(po), tPickStrategy, "cluster") {
+			if v := c.W.ResolveCtx(s.Val, nil, true); v.V != ssa.Value(po.Params[0]) {
+				okCluster, whyCluster = false, "the pick strategy is bound to "+c12Describe(v.V)+", not to the receiver"
+			}
+		}
+		c.Check("R4", po, "picker.cluster = receiver", po.Pos(), okCluster && nLoads > 0, "PickOne must pick among the endpoints of the cluster it is called on"+c12Found(whyCluster))
+		c.Check("R4", po, "result = that picker's Pop()", po.Pos(), okOrigin && nLoads > 0, "the endpoint returned is one loaded from the Endpoints table of the cluster the pick is bound to (C03.R1 shows how it is chosen among them)"+c12Found(whyOrigin))
 	}
 
 	// Clientset() is the endpoint's own field
@@ -1398,72 +1677,172 @@ func c12R4(c *eng.Ctx) {
 		c.Check("R4", cs, "Clientset() = receiver.clientset", cs.Pos(), ok, "")
 	}
 
-	// clientset is written only from the endpoint's own createTransport
-	ct := c.MustMethod(pkgClusters, "EndpointInfo", "createTransport")
-	stores := eng.StoresToField(c.W.AllRepoFuncs(), tEndpointInfo, "clientset")
-	for k, s := range stores {
-		base := s.Addr.(*ssa.FieldAddr).X
-		ok := only(s.Val, func(v ssa.Value) bool {
-			cc, i := eng.CallResultOf(v)
-			return cc != nil && i == 2 && ct != nil && cc.Call.StaticCallee() == ct && eng.Receiver(cc) == base
-		})
-		c.Check("R4", s.Parent(), fmt.Sprintf("store EndpointInfo.clientset#%d = own createTransport()", k+1), s.Pos(), ok, "an endpoint's clientset must be the one built by createTransport of the same endpoint")
+	// The functions that build an endpoint's clientset and configs are found by what they do
+	// (kubernetes.NewForConfig on a copy of an endpoint's proxyConfig; the stores into
+	// EndpointInfo.clientset / proxyConfig / Endpoint; the registration in ClusterInfo.Endpoints),
+	// not by name: they may be methods, functions taking the fields they need, or helpers
+	// returning the objects to their caller.
+	isProxyCfgLoad := func(v ssa.Value) bool { return eng.FieldLoadOf(v, tEndpointInfo, "proxyConfig") }
+	isNewForConfig := func(v ssa.Value) bool {
+		cc, i := eng.CallResultOf(v)
+		return cc != nil && i == 0 && eng.IsCall(cc, "k8s.io/client-go/kubernetes.NewForConfig")
 	}
-	if len(stores) == 0 {
-		c.Fail("R4", ct, "store EndpointInfo.clientset", 0, "the clientset is never set")
-	}
-
-	// createTransport builds the clientset from a copy of the endpoint's proxyConfig, Host untouched
-	if ct != nil {
-		n := 0
-		eng.Instrs(ct, func(ins ssa.Instruction) {
-			r, isRet := ins.(*ssa.Return)
-			if !isRet || len(r.Results) != 4 || eng.IsNilConst(r.Results[2]) {
-				return
-			}
-			n++
-			ok, why := false, "the returned clientset is not the result of kubernetes.NewForConfig"
-			cc, i := eng.CallResultOf(r.Results[2])
-			if cc != nil && i == 0 && eng.IsCall(cc, "k8s.io/client-go/kubernetes.NewForConfig") {
-				cfg, isAlloc := eng.Args(cc)[0].(*ssa.Alloc)
-				switch {
-				case !isAlloc:
-					ok = eng.FieldLoadOf(eng.Args(cc)[0], tEndpointInfo, "proxyConfig") && c12FieldBase(eng.Args(cc)[0]) == ssa.Value(ct.Params[0])
-					why = "clientset config is not the endpoint's proxyConfig"
-				default:
-					ok, why = c12ConfigCopyOf(cfg, func(v ssa.Value) bool {
-						return eng.FieldLoadOf(v, tEndpointInfo, "proxyConfig") && c12FieldBase(v) == ssa.Value(ct.Params[0])
-					})
+	// cfgSource returns the value the config handed to NewForConfig call n (entered through fr) is
+	// taken from — the pointer whose pointee is copied into the local config, or the argument itself —
+	// resolved into the calling context.
+	cfgSource := func(n *ssa.Call, fr *eng.DFrame) (eng.CtxVal, bool) {
+		arg := eng.Args(n)[0]
+		if cfg, isAlloc := arg.(*ssa.Alloc); isAlloc {
+			var src ssa.Value
+			k := 0
+			for _, r := range *cfg.Referrers() {
+				if st, isSt := r.(*ssa.Store); isSt && st.Addr == ssa.Value(cfg) {
+					k++
+					if ld, isLd := st.Val.(*ssa.UnOp); isLd && ld.Op == token.MUL {
+						src = ld.X
+					}
 				}
 			}
-			c.Check("R4", ct, "clientset config = copy of own proxyConfig, Host kept", r.Pos(), ok,
-				"the clientset must talk to the endpoint's own address (rest.Config.Host of its proxyConfig)"+c12Found(why))
-		})
+			if k != 1 || src == nil {
+				return eng.CtxVal{}, false
+			}
+			return c.W.ResolveCtx(src, fr, true), true
+		}
+		return c.W.ResolveCtx(arg, fr, true), true
+	}
+
+	// clientset is written only with a clientset built from the same endpoint's own proxyConfig
+	stores := eng.StoresToField(c.W.AllRepoFuncs(), tEndpointInfo, "clientset")
+	for k, s := range stores {
+		of := c.W.ResolveCtx(s.Addr.(*ssa.FieldAddr).X, nil, true)
+		ok, n := true, 0
+		for _, l := range c.W.CtxLeaves(s.Val, nil, isNewForConfig, eng.LiftDepth, true) {
+			if eng.IsNilConst(l.V) {
+				continue // the failure return of the builder: no clientset at all
+			}
+			if !isNewForConfig(l.V) {
+				ok = false
+				continue
+			}
+			n++
+			cc, _ := eng.CallResultOf(l.V)
+			src, found := cfgSource(cc, l.Fr)
+			if !found || !isProxyCfgLoad(src.V) {
+				ok = false
+				continue
+			}
+			if base := c.W.ResolveCtx(c12FieldBase(src.V), src.Fr, true); base.V != of.V {
+				ok = false
+			}
+		}
+		c.Check("R4", s.Parent(), fmt.Sprintf("store EndpointInfo.clientset#%d = own createTransport()", k+1), s.Pos(), ok && n > 0, "an endpoint's clientset must be the one built (kubernetes.NewForConfig) from the proxyConfig of the same endpoint")
+	}
+	if len(stores) == 0 {
+		c.Fail("R4", nil, "store EndpointInfo.clientset", 0, "the clientset is never set")
+	}
+
+	// the clientset is built from a copy of an endpoint's proxyConfig, Host untouched
+	{
+		n := 0
+		ord := map[*ssa.Function]int{}
+		for _, fn := range c.W.FuncsOf(pkgClusters) {
+			for _, ci := range eng.CallsTo(fn, "k8s.io/client-go/kubernetes.NewForConfig") {
+				cc, isCall := ci.(*ssa.Call)
+				if !isCall {
+					continue
+				}
+				n++
+				ord[fn]++
+				// in every calling context the source is the proxyConfig of the endpoint the function works on
+				isSrc := func(v ssa.Value) bool {
+					vs := c.W.UpVals(v)
+					for _, u := range vs {
+						if !isProxyCfgLoad(u) {
+							return false
+						}
+						if _, isParam := c.W.ResolveCtx(c12FieldBase(u), nil, true).V.(*ssa.Parameter); !isParam {
+							return false
+						}
+					}
+					return len(vs) > 0
+				}
+				ok, why := false, ""
+				if cfg, isAlloc := eng.Args(cc)[0].(*ssa.Alloc); isAlloc {
+					ok, why = c12ConfigCopyOf(cfg, isSrc)
+				} else {
+					ok, why = isSrc(eng.Args(cc)[0]), "clientset config is not the endpoint's proxyConfig"
+				}
+				construct := "clientset config = copy of own proxyConfig, Host kept"
+				if ord[fn] > 1 {
+					construct += fmt.Sprintf("#%d", ord[fn])
+				}
+				c.Check("R4", fn, construct, cc.Pos(), ok, "the clientset must talk to the endpoint's own address (rest.Config.Host of its proxyConfig)"+c12Found(why))
+			}
+		}
 		if n == 0 {
-			c.Fail("R4", ct, "clientset config = copy of own proxyConfig, Host kept", ct.Pos(), "createTransport never returns a clientset")
+			c.Fail("R4", nil, "clientset config = copy of own proxyConfig, Host kept", 0, "no clientset is ever built in pkg/clusters")
 		}
 	}
 
 	// the endpoint's proxyConfig.Host, its Endpoint field and its key in the cluster's map are one value
-	if au := c.MustMethod(pkgClusters, "ClusterInfo", "addOrUpdateEndpoint"); au != nil && len(au.Params) > 1 {
+	au := c02EndpointAdder(c)
+	if au != nil && len(au.Params) > 1 {
 		endpoint := ssa.Value(au.Params[1])
-		var infoAlloc ssa.Value
+		auRegion := c.W.Region(au)
+		isEndpoint := func(v ssa.Value) bool { return c12ResolvesTo(c.W, v, endpoint) }
+		isCfgAlloc := func(v ssa.Value) bool {
+			a, ok := v.(*ssa.Alloc)
+			return ok && eng.TypeName(a.Type().(*types.Pointer).Elem()) == c12RestConfig
+		}
+		isInfoAlloc := func(v ssa.Value) bool {
+			a, ok := v.(*ssa.Alloc)
+			return ok && eng.TypeName(a.Type().(*types.Pointer).Elem()) == tEndpointInfo
+		}
+		at := func(fn *ssa.Function) (*ssa.Function, bool) {
+			if c.W.OwnedBy(fn, au) {
+				return au, true
+			}
+			return fn, false
+		}
+		// objectsOf: the local objects pointer value v may denote (through helper results and parameters)
+		objectsOf := func(v ssa.Value, is func(ssa.Value) bool) (map[ssa.Value]bool, bool) {
+			out := map[ssa.Value]bool{}
+			for _, l := range c.W.CtxLeaves(v, nil, is, eng.LiftDepth, true) {
+				if eng.IsNilConst(l.V) {
+					continue
+				}
+				if !is(l.V) {
+					return nil, false
+				}
+				out[l.V] = true
+			}
+			return out, len(out) > 0
+		}
+		infoAllocs := map[ssa.Value]bool{}
 		pcs := eng.StoresToField(c.W.AllRepoFuncs(), tEndpointInfo, "proxyConfig")
 		for k, s := range pcs {
-			ok, why := s.Parent() == au, "proxyConfig written outside addOrUpdateEndpoint"
+			fn, owned := at(s.Parent())
+			ok, why := owned, "proxyConfig written outside addOrUpdateEndpoint"
 			if ok {
-				infoAlloc = s.Addr.(*ssa.FieldAddr).X
-				cfg, isAlloc := s.Val.(*ssa.Alloc)
-				ok, why = false, "proxyConfig is not a config built here"
-				if isAlloc {
+				if infos, found := objectsOf(s.Addr.(*ssa.FieldAddr).X, isInfoAlloc); found {
+					for i := range infos {
+						infoAllocs[i] = true
+					}
+				}
+				cfgs, found := objectsOf(s.Val, isCfgAlloc)
+				if !found {
+					ok, why = false, "proxyConfig is not a config built here"
+				}
+				for cfg := range cfgs {
 					hosts := 0
-					ok = true
-					for _, hs := range eng.StoresToField([]*ssa.Function{au}, c12RestConfig, "Host") {
-						if hs.Addr.(*ssa.FieldAddr).X == ssa.Value(cfg) {
-							hosts++
-							if hs.Val != endpoint {
-								ok, why = false, "Host of the endpoint's config is not the endpoint address"
-							}
+					for _, hs := range eng.StoresToField(auRegion, c12RestConfig, "Host") {
+						bases, _ := objectsOf(hs.Addr.(*ssa.FieldAddr).X, isCfgAlloc)
+						if !bases[cfg] {
+							continue
+						}
+						hosts++
+						if !isEndpoint(hs.Val) {
+							ok, why = false, "Host of the endpoint's config is not the endpoint address"
 						}
 					}
 					if hosts == 0 {
@@ -1474,7 +1853,7 @@ func c12R4(c *eng.Ctx) {
 			if ok {
 				why = ""
 			}
-			c.Check("R4", s.Parent(), fmt.Sprintf("store EndpointInfo.proxyConfig#%d has Host = endpoint", k+1), s.Pos(), ok,
+			c.Check("R4", fn, fmt.Sprintf("store EndpointInfo.proxyConfig#%d has Host = endpoint", k+1), s.Pos(), ok,
 				"the config an endpoint's transports and clientset are built from must point at that endpoint"+c12Found(why))
 		}
 		if len(pcs) == 0 {
@@ -1482,46 +1861,84 @@ func c12R4(c *eng.Ctx) {
 		}
 		eps := eng.StoresToField(c.W.AllRepoFuncs(), tEndpointInfo, "Endpoint")
 		for k, s := range eps {
-			ok := s.Parent() == au && s.Val == endpoint && s.Addr.(*ssa.FieldAddr).X == infoAlloc
-			c.Check("R4", s.Parent(), fmt.Sprintf("store EndpointInfo.Endpoint#%d = endpoint", k+1), s.Pos(), ok, "the endpoint's name must be the address its config points to")
+			fn, owned := at(s.Parent())
+			infos, found := objectsOf(s.Addr.(*ssa.FieldAddr).X, isInfoAlloc)
+			ok := owned && isEndpoint(s.Val) && found
+			for i := range infos {
+				ok = ok && infoAllocs[i]
+			}
+			c.Check("R4", fn, fmt.Sprintf("store EndpointInfo.Endpoint#%d = endpoint", k+1), s.Pos(), ok, "the endpoint's name must be the address its config points to")
 		}
 		if len(eps) == 0 {
 			c.Fail("R4", au, "store EndpointInfo.Endpoint = endpoint", au.Pos(), "Endpoint is never set")
 		}
 		nSt := 0
-		for _, ci := range eng.CallsTo(au, "(*"+tEndpointInfoMap+").Store") {
-			nSt++
-			a := eng.Args(ci)
-			ok := len(a) == 2 && a[0] == endpoint && a[1] == infoAlloc && eng.FieldLoadOf(eng.Receiver(ci), tClusterInfo, "Endpoints") && c12FieldBase(eng.Receiver(ci)) == ssa.Value(au.Params[0])
-			c.Check("R4", au, fmt.Sprintf("Endpoints.Store(endpoint, info)#%d", nSt), ci.Pos(), ok, "the endpoint must be registered in its own cluster's map under its own address")
+		for _, fn := range auRegion {
+			for _, ci := range eng.CallsTo(fn, "(*"+tEndpointInfoMap+").Store") {
+				nSt++
+				a := eng.Args(ci)
+				ok := len(a) == 2 && isEndpoint(a[0]) && eng.FieldLoadOf(eng.Receiver(ci), tClusterInfo, "Endpoints") &&
+					c12ResolvesTo(c.W, c12FieldBase(eng.Receiver(ci)), au.Params[0])
+				if ok {
+					infos, found := objectsOf(a[1], isInfoAlloc)
+					ok = found
+					for i := range infos {
+						ok = ok && infoAllocs[i]
+					}
+				}
+				c.Check("R4", au, fmt.Sprintf("Endpoints.Store(endpoint, info)#%d", nSt), ci.Pos(), ok, "the endpoint must be registered in its own cluster's map under its own address")
+			}
 		}
 		if nSt == 0 {
 			c.Fail("R4", au, "Endpoints.Store(endpoint, info)", au.Pos(), "the new endpoint is never registered")
 		}
-	}
-	// no other write of rest.Config.Host in pkg/clusters
-	for _, s := range eng.StoresToField(c.W.FuncsOf(pkgClusters), c12RestConfig, "Host") {
-		if s.Parent().Name() != "addOrUpdateEndpoint" {
-			c.Fail("R4", s.Parent(), "store rest.Config.Host outside addOrUpdateEndpoint", s.Pos(), "a second writer of Host can redirect an endpoint's clientset")
+		// no other write of rest.Config.Host in pkg/clusters
+		for _, s := range eng.StoresToField(c.W.FuncsOf(pkgClusters), c12RestConfig, "Host") {
+			if !c.W.OwnedBy(s.Parent(), au) {
+				c.Fail("R4", s.Parent(), "store rest.Config.Host outside addOrUpdateEndpoint", s.Pos(), "a second writer of Host can redirect an endpoint's clientset")
+			}
 		}
 	}
 }
 
-// c12NRet numbers a return among the returns of its function (stable under edits that do not
-// add or remove returns before it).
-func c12NRet(r *ssa.Return) int {
-	n := 0
-	for _, b := range r.Parent().Blocks {
-		for _, ins := range b.Instrs {
-			if x, ok := ins.(*ssa.Return); ok {
-				n++
-				if x == r {
-					return n
+// c12ResolvesTo reports whether v is target in every calling context: v itself (through
+// conversions and single-store spills), or a parameter of an extracted helper that every call
+// site binds to such a value (depth ≤ LiftDepth). The search stops at target, which may itself
+// be a parameter of a helper.
+func c12ResolvesTo(w *eng.World, v, target ssa.Value) bool {
+	var rec func(v ssa.Value, depth int) bool
+	rec = func(v ssa.Value, depth int) bool {
+		for i := 0; i < 8; i++ {
+			if v == target {
+				return true
+			}
+			switch n := v.(type) {
+			case *ssa.ChangeType:
+				v = n.X
+				continue
+			case *ssa.UnOp:
+				if a, ok := n.X.(*ssa.Alloc); ok && n.Op == token.MUL {
+					if sv := eng.SingleStoreOf(a); sv != nil {
+						v = sv
+						continue
+					}
 				}
 			}
+			break
 		}
+		p, ok := v.(*ssa.Parameter)
+		if !ok || depth <= 0 {
+			return false
+		}
+		ups := w.UpArgSites(p)
+		for _, u := range ups {
+			if !rec(u.Arg, depth-1) {
+				return false
+			}
+		}
+		return len(ups) > 0
 	}
-	return n
+	return rec(v, eng.LiftDepth)
 }
 
 // c12ConfigCopyOf reports whether the local rest.Config `cfg` is initialised by exactly one
